@@ -240,7 +240,7 @@ def judge_index(ctx, coords, value, raise_error, attr_step=None):
         arr = xr.DataArray(np.zeros((5, len(coords))), dims=["other", "x"], coords={"x": cvar})
     else:
         arr = xr.DataArray(np.zeros((2, len(coords), 4)), dims=["a", "x", "b"], coords={"x": cvar, "b": [0.0, 0.5, 1.0, 1.5]})
-    spec = {"kind": "index", "coords": _cspec(coords), "value": value, "raise_error": raise_error}
+    spec = {"kind": "index", "coords": _cspec(coords), "value": value, "raise_error": raise_error, "dtype": str(np.asarray(coords).dtype)}
     inside = coords[0] <= value <= coords[-1]
     ctx.mon("get_coord_index.exceptions")
     if ctx.every(spec, 4):
@@ -346,13 +346,17 @@ def run(ctx):
 
     # ---- coordinate lookup
     for _ in range(ctx.scale(2500, 15000)):
-        kind = rng.choice(["regular", "regular", "irregular", "single"])
+        kind = rng.choice(["regular", "regular", "irregular", "single", "integer"])
         attr_step = None
         if kind == "regular":
             start = rng.choice(STARTS); step = rng.choice(STEPS); n = rng.choice([1, 2, 3, 5, 10, 50, 500])
             coords = start + np.arange(n) * step
             if rng.random() < 0.6:
                 attr_step = step if rng.random() < 0.8 else step / 2   # stale attribute after a decimation
+        elif kind == "integer":
+            # integer-typed coordinates (channel numbers, bin indices, whole seconds), also below zero; queries stay floats
+            n = rng.choice([2, 5, 10, 11])
+            coords = (rng.choice([-5, -12, 0, 3]) + np.arange(n) * rng.choice([1, 1, 2, 5])).astype(rng.choice([np.int64, np.int32]))
         elif kind == "irregular":
             n = rng.randint(2, 12)
             coords = np.cumsum([rng.uniform(0.01, 3) for _ in range(n)]) + rng.uniform(0, 10)
@@ -374,13 +378,13 @@ def run(ctx):
         elif where == "above":
             v = float(coords[-1] + rng.uniform(1e-9, 5))
         elif where == "just_below_coord":
-            v = float(np.nextafter(coords[i], -np.inf))
+            v = float(np.nextafter(float(coords[i]), -np.inf))
         elif where == "just_above_coord":
-            v = float(np.nextafter(coords[i], np.inf))
+            v = float(np.nextafter(float(coords[i]), np.inf))
         elif where == "just_above_last":
-            v = float(np.nextafter(coords[-1], np.inf))
+            v = float(np.nextafter(float(coords[-1]), np.inf))
         else:
-            v = float(np.nextafter(coords[0], -np.inf))
+            v = float(np.nextafter(float(coords[0]), -np.inf))
         raise_error = rng.random() < 0.5
         ctx.case(("index", kind, where, "raise" if raise_error else "clamp"),
                  {"kind": "index", "coords": _cspec(coords), "value": v, "raise_error": raise_error}, nontrivial=where != "on")
@@ -479,6 +483,7 @@ def replay(ctx, w):
     elif s["kind"] == "index":
         c = s["coords"]
         coords = np.array(c) if isinstance(c, list) else c["first"] + np.arange(c["n"]) * (c["second"] - c["first"])
+        coords = coords.astype(s.get("dtype", "float64"))
         judge_index(ctx, coords, s["value"], s["raise_error"])
     elif s["kind"] == "set" and "which" in s:
         judge_set(ctx, tuple(s["shape"]), s["which"], s["vals"], s["value_kind"], s["seed"])
